@@ -6,6 +6,7 @@ package main
 import (
 	"fmt"
 	"go/token"
+	"regexp"
 	"go/types"
 	"os"
 	"path/filepath"
@@ -94,6 +95,9 @@ func genFunction(prog *ssa.Program, cs *Contracts, fn *ssa.Function, fc *FuncCon
 		params = append(params, v)
 		env0[names[i]] = v
 		c.recordParam(p.Name(), v)
+		if sp, ok := v.(StructPtr); ok && !contains(fc.Nullable, names[i]) {
+			c.emit(fmt.Sprintf("(assert (> %s 0))", sp.Ref.S))
+		}
 		if sv, ok := v.(SliceV); ok {
 			if c.paramIDs == nil {
 				c.paramIDs = map[string]bool{}
@@ -189,6 +193,13 @@ func genFunction(prog *ssa.Program, cs *Contracts, fn *ssa.Function, fc *FuncCon
 			c.assume(tTrue, c.evalBool(envR, cl.Expr))
 		}
 	}
+	// conclusions of the induction lemmas (their base and step cases are separate obligations)
+	for _, ind := range cs.Inducts {
+		if len(fc.UseLemmas) > 0 && contains(fc.UseLemmas, ind.Label) {
+			c.emit("(assert " + c.inductFormula(ind, "concl").S + ")")
+			c.note("lemma by induction " + ind.Label + " (base and step are discharged as separate obligations; the induction principle itself is meta-level)")
+		}
+	}
 	// global axioms
 	for _, ax := range cs.Axioms {
 		c.assume(tTrue, c.evalBool(&Env{c: c, st: st0, names: map[string]Val{}}, ax.Expr))
@@ -197,6 +208,9 @@ func genFunction(prog *ssa.Program, cs *Contracts, fn *ssa.Function, fc *FuncCon
 	o := c.oblige(st0, "cover", "requires-sat", nil, tTrue, fn.Pos(), "the precondition is satisfiable (vacuity guard)")
 	o.ExpectSat = true
 	c.writeLog = nil
+	if fc.HasAssigns {
+		c.setupFrame(fr, envR, entryCut, fr.old.alloc)
+	}
 	if fc.StructuralOnly {
 		// only the syntactic frame obligations: the body is outside the subset
 		// (or too large) for the symbolic executor
@@ -246,6 +260,23 @@ func genFunction(prog *ssa.Program, cs *Contracts, fn *ssa.Function, fc *FuncCon
 				}
 			}
 		}
+		for i := 0; i < rs.Len(); i++ {
+			isFresh := (i < len(fc.Results) && contains(fc.Fresh, fc.Results[i])) || contains(fc.Fresh, fmt.Sprintf("r%d", i))
+			if !isFresh {
+				continue
+			}
+			var idT T
+			switch x := vals[i].(type) {
+			case SliceV:
+				idT = x.ID
+			case StructPtr:
+				idT = x.Ref
+			case IfaceV:
+				idT = x.Ref
+			}
+			// a fresh object has an id at or above the allocation counter at entry
+			c.oblige(rst, "frame", "fresh-result", nil, app(SBool, ">=", idT, fr.old.alloc), fn.Pos(), fmt.Sprintf("result %d is a newly allocated object", i))
+		}
 		oc := c.oblige(rst, "cover", "exit-reachable", nil, tTrue, fn.Pos(), "a normal return is reachable under the precondition (vacuity guard)")
 		oc.ExpectSat = true
 	} else {
@@ -259,9 +290,23 @@ func genFunction(prog *ssa.Program, cs *Contracts, fn *ssa.Function, fc *FuncCon
 			panic(vcErr("no return is reachable in %s", fn))
 		}
 	}
-	// frame: every write to a pre-existing object must be covered by assigns
+	// frame: whole-heap writes (loop havoc of objects that cannot be named) are
+	// reported here; keyed writes are SMT obligations generated at the write
 	if fc.HasAssigns {
-		rep.FrameErrs = c.checkFrame(fr, envR, entryCut)
+		for _, w := range c.writeLog {
+			if w.heap != "" && w.key == nil && !c.frameAll {
+				msg := "whole heap " + w.heap + " may be written in a loop (written objects cannot be named at the loop head)"
+				dup := false
+				for _, e := range rep.FrameErrs {
+					if e == msg {
+						dup = true
+					}
+				}
+				if !dup {
+					rep.FrameErrs = append(rep.FrameErrs, msg)
+				}
+			}
+		}
 	}
 	rep.Obls = c.obls
 	return rep
@@ -624,6 +669,10 @@ func genLemmas(prog *ssa.Program, cs *Contracts, id string) *FuncReport {
 			for _, ax := range cs.Axioms {
 				c.assume(tTrue, c.evalBool(&Env{c: c, st: st, names: map[string]Val{}}, ax.Expr))
 			}
+			// the induction lemmas (proved separately) are available to plain lemmas
+			for _, ind := range cs.Inducts {
+				c.emit("(assert " + c.inductFormula(ind, "concl").S + ")")
+			}
 			g := c.evalBool(&Env{c: c, st: st, names: map[string]Val{}}, lm.Expr)
 			c.oblige(st, "lemma", lm.Label, lm.Props, g, token.NoPos, "lemma: "+lm.Src)
 		}()
@@ -639,4 +688,187 @@ func contains(xs []string, x string) bool {
 		}
 	}
 	return false
+}
+
+// inductTerm builds  forall vars. [pre =>] body[n := nTerm]  for an induct lemma.
+func (c *Ctx) inductFormula(ind *Induct, mode string) T {
+	st := &State{reach: tTrue, heaps: map[string]T{}, cells: map[string]Val{}, alloc: intLit(1)}
+	env := &Env{c: c, st: st, names: map[string]Val{}, bound: map[string]Val{}}
+	var binders []string
+	c.inQuant++
+	defer func() { c.inQuant-- }()
+	for _, vr := range ind.Vars {
+		c.nsym++
+		switch vr[1] {
+		case "int":
+			t := T{fmt.Sprintf("q_%s_%d", vr[0], c.nsym), SInt}
+			binders = append(binders, fmt.Sprintf("(%s Int)", t.S))
+			env.bound[vr[0]] = t
+		case "real":
+			t := T{fmt.Sprintf("q_%s_%d", vr[0], c.nsym), SReal}
+			binders = append(binders, fmt.Sprintf("(%s Real)", t.S))
+			env.bound[vr[0]] = t
+		case "[]int", "[]real":
+			k := SInt
+			if vr[1] == "[]real" {
+				k = SReal
+			}
+			a := T{fmt.Sprintf("q_%s_%d", vr[0], c.nsym), arrSort(k)}
+			binders = append(binders, fmt.Sprintf("(%s %s)", a.S, a.K))
+			env.bound[vr[0]] = SeqV{a, intLit(0), intLit(0)} // sequences in lemmas are unbounded; len() is not meaningful
+		default:
+			panic(vcErr("induct: variable type %s", vr[1]))
+		}
+	}
+	c.nsym++
+	n := T{fmt.Sprintf("q_%s_%d", ind.N, c.nsym), SInt}
+	at := func(t T) T {
+		e2 := *env
+		e2.bound = copyMap(env.bound)
+		e2.bound[ind.N] = t
+		return c.evalBool(&e2, ind.Body)
+	}
+	var f T
+	switch mode {
+	case "base":
+		f = at(intLit(0))
+	case "step":
+		binders = append(binders, fmt.Sprintf("(%s Int)", n.S))
+		f = implies(and(app(SBool, ">=", n, intLit(0)), at(n)), at(app(SInt, "+", n, intLit(1))))
+	default: // the conclusion, used as an axiom elsewhere
+		binders = append(binders, fmt.Sprintf("(%s Int)", n.S))
+		body := at(n)
+		f = implies(app(SBool, ">=", n, intLit(0)), body)
+		// instantiate on the spec-function applications that mention the induction variable
+		var pats []string
+		seen := map[string]bool{}
+		for _, t := range specApps(body.S) {
+			if strings.Contains(t, n.S) && !seen[t] && !strings.Contains(t, "q_k_") {
+				seen[t] = true
+				pats = append(pats, t)
+			}
+		}
+		// variables not covered by the spec applications: add a select term that mentions them
+		for _, b := range binders {
+			name := strings.Fields(strings.Trim(b, "()"))[0]
+			if strings.Contains(strings.Join(pats, " "), name) {
+				continue
+			}
+			re := regexp.MustCompile(`\(select (q_[A-Za-z0-9_]+) ` + regexp.QuoteMeta(name) + `\)`)
+			if m := re.FindString(body.S); m != "" {
+				pats = append(pats, m)
+			}
+		}
+		if len(pats) > 0 && patternCovers(pats, binders) {
+			return T{fmt.Sprintf("(forall (%s) (! %s :pattern (%s)))", strings.Join(binders, " "), f.S, strings.Join(pats, " ")), SBool}
+		}
+	}
+	if len(binders) == 0 {
+		return f
+	}
+	return T{fmt.Sprintf("(forall (%s) %s)", strings.Join(binders, " "), f.S), SBool}
+}
+
+// genInducts: base and step obligations of the induction lemmas.
+func genInducts(prog *ssa.Program, cs *Contracts, id string) *FuncReport {
+	rep := &FuncReport{Func: "lemma", Key: "lemma", Props: map[string]bool{}}
+	for _, ind := range cs.Inducts {
+		serves := id == ""
+		for _, p := range ind.Props {
+			if p == id {
+				serves = true
+			}
+		}
+		if !serves {
+			continue
+		}
+		for _, mode := range []string{"base", "step"} {
+			c := newCtx(prog, cs)
+			c.topName = "lemma"
+			func() {
+				defer func() {
+					if r := recover(); r != nil {
+						if e, ok := r.(vcError); ok {
+							rep.Err = ind.Label + ": " + e.msg
+							return
+						}
+						panic(r)
+					}
+				}()
+				st := &State{reach: tTrue, heaps: map[string]T{}, cells: map[string]Val{}, alloc: intLit(1)}
+				g := c.inductFormula(ind, mode)
+				c.oblige(st, "lemma", ind.Label+"."+mode, ind.Props, g, token.NoPos, "induction "+mode+": "+ind.Src)
+			}()
+			rep.Obls = append(rep.Obls, c.obls...)
+		}
+	}
+	return rep
+}
+
+// specApps returns the maximal sub-terms of s that are applications of spec functions.
+func specApps(s string) []string {
+	var out []string
+	for i := 0; i < len(s); i++ {
+		if strings.HasPrefix(s[i:], "(spec_") {
+			depth := 0
+			j := i
+			for ; j < len(s); j++ {
+				if s[j] == '(' {
+					depth++
+				} else if s[j] == ')' {
+					depth--
+					if depth == 0 {
+						break
+					}
+				}
+			}
+			out = append(out, s[i:j+1])
+			i = j
+		}
+	}
+	return out
+}
+
+func patternCovers(pats []string, binders []string) bool {
+	all := strings.Join(pats, " ")
+	for _, b := range binders {
+		name := strings.Fields(strings.Trim(b, "()"))[0]
+		if !strings.Contains(all, name) {
+			return false
+		}
+	}
+	return true
+}
+
+// setupFrame evaluates the assigns clause into allowed (heap, object) pairs.
+func (c *Ctx) setupFrame(fr *Frame, env *Env, entryCut int, entryAlloc T) {
+	c.frameAllowed = map[string][]T{}
+	c.frameAllowedWholeField = map[string]bool{}
+	c.entryCut = entryCut
+	c.entryAlloc = entryAlloc
+	st := &State{heaps: map[string]T{}, cells: map[string]Val{}, alloc: intLit(0), reach: tTrue}
+	saveLog := c.writeLog
+	snap := c.snapshot()
+	c.writeLog = nil
+	for _, a := range c.fc.Assigns {
+		if strings.TrimSpace(a) == "*" {
+			c.frameAll = true
+			continue
+		}
+		e2 := *env
+		e2.st = st
+		fr.havocTarget(&e2, st, a)
+	}
+	for _, w := range c.writeLog {
+		if w.key != nil {
+			base := w.heap
+			if i := strings.Index(base, "#"); i > 0 {
+				base = base[:i]
+			}
+			c.frameAllowed[base] = append(c.frameAllowed[base], *w.key)
+		}
+	}
+	c.restore(snap)
+	c.writeLog = saveLog
+	c.frameActive = !c.frameAll
 }
